@@ -34,6 +34,13 @@ type maxWaitError struct {
 	waitErr error
 }
 
+// remaining returns how long t still is from lying threshold in the past: threshold - (Now - t).
+// It is computed on the timestamps, so it neither overflows nor inherits the saturation of Since;
+// the result saturates at the ends of the duration range.
+func (s *SyncStatus) remaining(t time.Time, threshold time.Duration) time.Duration {
+	return t.Add(threshold).Sub(s.Now)
+}
+
 func (m *maxWaitError) apply(wait time.Duration, waitErr error) {
 	if m.wait < wait {
 		m.wait = wait
@@ -52,20 +59,20 @@ func SyncedToEmit(s SyncStatus, threshold time.Duration) (time.Duration, error) 
 		return 0, ErrP2PSyncOngoing
 	}
 	var max maxWaitError
-	if s.Since(s.ExternalSelfEventDetected) < threshold {
-		max.apply(threshold-s.Since(s.ExternalSelfEventDetected), ErrSelfEventsOngoing)
+	if wait := s.remaining(s.ExternalSelfEventDetected, threshold); wait > 0 {
+		max.apply(wait, ErrSelfEventsOngoing)
 	}
-	if s.Since(s.ExternalSelfEventCreated) < threshold {
-		max.apply(threshold-s.Since(s.ExternalSelfEventCreated), ErrSelfEventsOngoing)
+	if wait := s.remaining(s.ExternalSelfEventCreated, threshold); wait > 0 {
+		max.apply(wait, ErrSelfEventsOngoing)
 	}
-	if s.Since(s.BecameValidator) < threshold {
-		max.apply(threshold-s.Since(s.BecameValidator), ErrJustBecameValidator)
+	if wait := s.remaining(s.BecameValidator, threshold); wait > 0 {
+		max.apply(wait, ErrJustBecameValidator)
 	}
-	if s.Since(s.LastConnected) < threshold {
-		max.apply(threshold-s.Since(s.LastConnected), ErrJustConnected)
+	if wait := s.remaining(s.LastConnected, threshold); wait > 0 {
+		max.apply(wait, ErrJustConnected)
 	}
-	if s.Since(s.P2PSynced) < threshold {
-		max.apply(threshold-s.Since(s.P2PSynced), ErrJustP2PSynced)
+	if wait := s.remaining(s.P2PSynced, threshold); wait > 0 {
+		max.apply(wait, ErrJustP2PSynced)
 	}
 
 	return max.wait, max.waitErr
